@@ -116,7 +116,9 @@ Expect(ev) ==
             IF ev.q \in DOMAIN w.open \/ ~FilterOK(w, flt) \/ Cardinality(DOMAIN w.open) >= 63
             THEN [def |-> FALSE, pre |-> TRUE, w2 |-> w, foot |-> {}]
             ELSE IF ~TargetsOK(w, FltTargets(flt))
-            THEN (IF ev.mode = "typed" THEN R(FALSE, w, {})     \* a removed entity named as target: rejected, nothing changes
+            THEN (IF ev.mode = "typed" /\ ~TargetsOK(w, flt.qt)
+                  THEN R(FALSE, w, {})     \* a removed entity named as per-query target: rejected, nothing changes
+                  \* a long-lived filter whose fixed target died after it was built, or the ID-based API: not regulated
                   ELSE [def |-> FALSE, pre |-> TRUE, w2 |-> w, foot |-> {}])
             ELSE R(TRUE, DoQOpen(w, ev.q, flt), {})
       [] ev.op = "QNext" ->
